@@ -349,6 +349,53 @@ func rebuildTokenKeyDER(r *core.Rand, n *big.Int, e int, pssAlg, rsaAlg []byte) 
 			out = append(out, seq(tlv(0x30, append(clone(body), extra...), 0), bitstr(0, good)))
 		}
 	}
+	// RSASSA-PSS-params with something more INSIDE the parameters SEQUENCE: the explicit trailerField [3], an unknown [4],
+	// a NULL, a repeated [2], elements in another order, saltLength missing
+	{
+		kids := func(b []byte) [][]byte { // the TLVs inside a definite-length constructed value (short and 0x81/0x82 lengths)
+			var out [][]byte
+			for len(b) >= 2 {
+				l, h := int(b[1]), 2
+				if b[1] == 0x81 && len(b) >= 3 {
+					l, h = int(b[2]), 3
+				} else if b[1] == 0x82 && len(b) >= 4 {
+					l, h = int(b[2])<<8|int(b[3]), 4
+				}
+				if h+l > len(b) {
+					break
+				}
+				out = append(out, b[:h+l])
+				b = b[h+l:]
+			}
+			return out
+		}
+		content := func(tlvb []byte) []byte {
+			h := 2
+			if tlvb[1] == 0x81 {
+				h = 3
+			} else if tlvb[1] == 0x82 {
+				h = 4
+			}
+			return tlvb[h:]
+		}
+		ak := kids(content(pssAlg))
+		if len(ak) == 2 {
+			pk := kids(content(ak[1]))
+			join := func(parts ...[]byte) []byte { return bytes.Join(parts, nil) }
+			mkAlg := func(params []byte) []byte { return tlv(0x30, join(ak[0], tlv(0x30, params, 0)), 0) }
+			all := join(pk...)
+			variants := [][]byte{
+				join(all, []byte{0xa3, 3, 2, 1, 1}), join(all, []byte{0xa4, 3, 2, 1, 1}), join(all, []byte{5, 0}), join(all, []byte{0xa3, 0}), join(all, []byte{2, 1, 1}),
+				join(all, []byte{0xa3, 3, 2, 1, 1}, []byte{0xa3, 3, 2, 1, 1}), join(all, []byte{0x30, 0}),
+			}
+			if len(pk) == 3 {
+				variants = append(variants, join(all, pk[2]), join(pk[0], pk[1]), join(pk[1], pk[0], pk[2]), join(pk[0], pk[2], pk[1]), join(pk[2]), nil)
+			}
+			for _, v := range variants {
+				out = append(out, seq(mkAlg(v), bitstr(0, good)))
+			}
+		}
+	}
 	// the key as TEXT: base64 (standard, URL, unpadded), hex, PEM - none of them is DER
 	{
 		der := seq(pssAlg, bitstr(0, good))
